@@ -22,6 +22,7 @@ BASE_WORDS = [
     b"open C:\\Windows\\System32\\calc.exe please", b"load kernel32.dll then",
 ]
 FILE_NAMES = [
+    "cafe\u0301", "\u2126hm.label",  # not NFC: decomposed e-acute, OHM SIGN (a name is a name, byte for byte)
     "api.one", "api.two", "malware", "Label With Space", "\u03b4.label", "UPPER", "x.string", "a", "b.c.d",
     "network.string", "caf\u00e9", "k_w", "0", "api.kernel32", "shell.cmd", ".hidden", "words.txt", "backup~",
 ]
